@@ -45,8 +45,11 @@ int main (void)
         struct sockaddr_in sa; memset (&sa, 0, sizeof sa); sa.sin_family = AF_INET; sa.sin_port = htons (1234); sa.sin_addr.s_addr = htonl (0x0a000001);
         int rr = stun_usage_ice_conncheck_create_reply (&ag, &m, &rep, ob, &ol, (struct sockaddr_storage *) &sa, sizeof sa, &ctl, 0x1122334455667788ULL, icec);
         P (" rp=%d:%zu", rr, ol);
+        /* whatever length is reported must be a complete, well-formed message inside the output buffer */
+        P (" rw=%d", ol == 0 ? 1 : (ol <= outcap && ol >= 20 && stun_message_validate_buffer_length (ob, ol, !(flags & STUN_AGENT_USAGE_NO_ALIGNED_ATTRIBUTES)) == (int) ol));
         uint8_t *eb = (uint8_t *) malloc (outcap ? outcap : 1) + (outcap ? 0 : 1); StunMessage em;
-        P (" ue=%zu", stun_agent_build_unknown_attributes_error (&ag, &em, eb, outcap, &m));
+        { size_t ul = stun_agent_build_unknown_attributes_error (&ag, &em, eb, outcap, &m); P (" ue=%zu", ul);
+          P (" uw=%d", ul == 0 ? 1 : (ul <= outcap && ul >= 20 && stun_message_validate_buffer_length (eb, ul, !(flags & STUN_AGENT_USAGE_NO_ALIGNED_ATTRIBUTES)) == (int) ul)); }
       } else {
         /* use the response as "previous_response" of the TURN request builders */
         uint8_t *ob = (uint8_t *) malloc (outcap ? outcap : 1) + (outcap ? 0 : 1); StunMessage q;
